@@ -1,5 +1,6 @@
 import Geo.Props.C10
 import Geo.Props.C10b
+import Geo.Props.C10c
 #print axioms Geo.T10_mirror2
 #print axioms Geo.T10_mirror_spec
 #print axioms Geo.T10_mirror_involution_2d
@@ -8,3 +9,15 @@ import Geo.Props.C10b
 #print axioms Geo.T10_base_point_2d
 #print axioms Geo.T10_direction_2d
 #print axioms Geo.T10_base_point_nonzero
+#print axioms Geo.T10_parallel_2d
+#print axioms Geo.T10_is_parallel_2d
+#print axioms Geo.T10_perpendicular_on_2d
+#print axioms Geo.T10_perpendicular_off_2d
+#print axioms Geo.T10_project_2d
+#print axioms Geo.T10_project_2d_spec
+#print axioms Geo.T10_mirror_project_collinear
+#print axioms Geo.T10_plane_project
+#print axioms Geo.T10_plane_project_spec
+#print axioms Geo.T10_plane_perpendicular
+#print axioms Geo.T10_planes_parallel_iff
+#print axioms Geo.mirror2G_eq_mirror2
